@@ -563,7 +563,7 @@ class CallMixin(ExprMixin):
         if 'CancelledError' in ((rc.cls,) if isinstance(rc.cls, str) else rc.cls) and getattr(rc, 'delivered', True):
             self.st.flags['cancelled'] = True
             self.st.trace.append('cancelled-in:' + C.key)
-        self.st.flags['last_callee_exc'] = (C.key, rc.label)
+        self.st.flags['last_callee_exc'] = (C.key, rc.label, exc)
         env2 = dict(env)
         env2['raised'] = exc
         for cl in list(rc.ensures) + list(C.exits_ensure):
